@@ -19,7 +19,11 @@ CUSTOM = ['no', 'none', 'value', 'raises']
 FALSY = []          # a falsy, non-None adapter is an adapter
 
 
-def one(conform, provided, hooks, alt, custom):
+WHERE = ['class', 'instance', 'getattr', 'inherited', 'slot']    # where the callable __conform__ is found by attribute lookup
+CALLABLE = ['none', 'value', 'falsy', 'raises', 'raisesAttributeError', 'raisesTypeError']
+
+
+def one(conform, provided, hooks, alt, custom, where='class'):
     log = []
     if custom == 'no':
         class IF(Interface):
@@ -33,8 +37,34 @@ def one(conform, provided, hooks, alt, custom):
                     raise E1('custom')
                 return None if custom == 'none' else 'custom-value'
 
-    class O:
-        if conform == 'attrerr':
+    def conform_fn(iface):
+        log.append('conform')
+        if iface is not IF:
+            log.append('wrong-arguments')
+        if conform == 'raises':
+            raise E1('conform')
+        if conform == 'raisesAttributeError':
+            raise AttributeError('inside conform')
+        if conform == 'raisesTypeError':
+            raise TypeError('conform')
+        return None if conform == 'none' else (FALSY if conform == 'falsy' else 'conform-value')
+
+    class Base:
+        if where == 'inherited':
+            def __conform__(self, iface):
+                return conform_fn(iface)
+
+    class O(Base):
+        if where == 'slot':
+            __slots__ = ('__conform__',)
+        if where == 'getattr':
+            def __getattr__(self, name):
+                if name == '__conform__':
+                    return conform_fn
+                raise AttributeError(name)
+        if where != 'class':
+            pass
+        elif conform == 'attrerr':
             @property
             def __conform__(self):
                 raise AttributeError('x')
@@ -55,6 +85,8 @@ def one(conform, provided, hooks, alt, custom):
     if provided:
         O = implementer(IF)(O)
     o = O()
+    if where in ('instance', 'slot'):
+        o.__conform__ = conform_fn
 
     def mk(k, kind):
         def h(iface, obj):
@@ -121,8 +153,8 @@ def one(conform, provided, hooks, alt, custom):
         adapter_hooks[:] = []
     exp, elog = spec()
     if got != exp or log != elog:
-        return [('precedence', 'conform=%s provided=%s hooks=%r alternate=%s custom __adapt__=%s: result %r after steps %r; '
-                 'the statement gives %r after steps %r' % (conform, provided, hooks, alt, custom, got, log, exp, elog))]
+        return [('precedence', 'conform=%s (found through: %s) provided=%s hooks=%r alternate=%s custom __adapt__=%s: result %r after steps %r; '
+                 'the statement gives %r after steps %r' % (conform, where, provided, hooks, alt, custom, got, log, exp, elog))]
     return []
 
 
@@ -161,12 +193,21 @@ def replay(*args):
 
 def run(ctx):
     ctx.rule = ('full product: __conform__ in %r x provided x hook lists of length <=2 over %r x alternate x custom __adapt__ in %r; '
+                '__conform__ found on the class, in the instance dictionary, in a slot, through __getattr__ or on a base class; '
                 'result/exception and the exact sequence of executed steps compared with the decision list of the statement; '
                 'distinct = points of the product' % (CONFORM, HOOK, CUSTOM))
     ctx.bounds = 'hook list length <= 2 (quick) / 3 (thorough)'
     maxh = 2 if ctx.tier == 'quick' else 3
     hook_lists = list(itertools.chain.from_iterable(itertools.product(HOOK, repeat=k) for k in range(maxh + 1)))
     for point in itertools.product(CONFORM, [False, True], hook_lists, [False, True], CUSTOM):
+        if ctx.too_many():
+            return
+        ctx.case(point)
+        for sig, what in one(*point):
+            ctx.violation(sig + repr(point), what, 'from falsify.C14 import replay\nreplay(*%r)\n' % (point,))
+    # the same decision list when __conform__ is found in the instance dictionary, a slot, through __getattr__ or a base class
+    short_hooks = [h for h in hook_lists if len(h) <= 1]
+    for point in itertools.product(CALLABLE, [False, True], short_hooks, [False, True], CUSTOM, WHERE[1:]):
         if ctx.too_many():
             return
         ctx.case(point)
